@@ -28,7 +28,7 @@ META = {
     "technique": "TLA+ semantics of CSV parsing / writing and of block-wise reading (reusing the read_bytes contract of C50); TLC "
                  "enumerates all small tables x every blocksize and typed frames x all partitionings x writer options; replay into "
                  "dd.read_csv / to_csv + TLC validation of every recorded call",
-    "level_text": "CSV half only. Small-scope: TLC enumerates every table of 1 column x <= 3 rows (thorough 4), 2 x <= 2, 3 x <= 1 over a "
+    "level_text": "CSV half only. Small-scope: TLC enumerates every table of 1 column x <= 3 rows (thorough 4), 2 x <= 2 (quick: a 4-string menu), 3 x <= 1 over a "
                   "menu of 7 cell strings (digit, letters, quoted comma, embedded quote, empty, two cells that begin like the header) "
                   "written as a text of <= 24 bytes, with and without final newline, and proves parse(write) = table and block-wise "
                   "read = whole parse for EVERY blocksize 1..len+1; seeded typed frames (<= 4 rows x <= 3 columns of ints, dyadic floats "
@@ -46,7 +46,7 @@ META = {
                   "limitation and are skipped.",
 }
 
-MENU = [[49], [97], [97, 98], [98, 55], [97, 44, 98], [120, 34, 121], []]     # 1  a  ab  b7  a,b  x"y  (empty)
+MENU = [[97, 44, 98], [97, 98], [49], [], [120, 34, 121], [98, 55], [97]]     # a,b  ab  1  (empty)  x"y  b7  a
 STRMENU = ["a", "a,b", 'x"y', "b c"]                                             # CsvBlocks!StrMenu
 NAMES = ["a", "b", "c"]
 _TMP = None
@@ -292,11 +292,25 @@ def py_bad(rec, expect):
     return bad
 
 
-def classify(call, clauses):
-    clause = sorted(clauses)[0]
+HEADER_FEATURES = ("row-equals-header-line", "row-begins-with-header-text")
+
+
+def classify(call, clauses, obs=None):
+    """family : clause : input class.  A text / written file in which a data row begins with the text of the header
+    line, read with a blocksize smaller than the file, is one input class of its own (one root cause)."""
+    order = ["Rows", "ReadBack", "Files", "Header", "Raised"]
+    clause = sorted(clauses, key=lambda c: order.index(c) if c in order else 99)[0]
     if call["kind"] == "blocks":
-        return "blocks:%s:%s" % (clause, text_feature(call["text"]))
+        feat = text_feature(call["text"])
+        if feat in HEADER_FEATURES and call["bs"] >= len(call["text"]):
+            feat = "single-block"
+        return "blocks:%s:%s" % (clause, feat)
     fr, lay = call["fr"], call["lay"]
+    if call["rbs"] and obs and not obs.get("raised") and clause == "ReadBack":
+        fs = {text_feature(f) for f in obs["files"] if f and call["rbs"] < len(f)}
+        for hf in HEADER_FEATURES:
+            if hf in fs:
+                return "roundtrip:ReadBack:%s" % hf
     feats = []
     if lay and lay[0] == 0 and sum(lay) > 0:
         feats.append("empty-first-partition")
@@ -406,7 +420,7 @@ def core(ctx, calls, report, parallel=True):
             if tl:
                 nviol += 1
                 what = "TLC rejects a recorded %s call (%s)%s" % (rec["kind"], ", ".join(sorted(tl)), (": " + obs["msg"]) if obs.get("msg") else "")
-                report(classify(call, tl), what, {"call": call, "observed": obs})
+                report(classify(call, tl, obs), what, {"call": call, "observed": obs})
     return nviol, len(recs)
 
 
@@ -415,7 +429,7 @@ def run(ctx):
     _TMP = ctx.scratch
     rng = ctx.rng
     frames = random_frames(rng, ctx.pick(40, 300), True)
-    shapes = ctx.pick("{<<1, 3>>, <<2, 2>>, <<3, 1>>}", "{<<1, 4>>, <<2, 2>>, <<3, 1>>}")
+    shapes = ctx.pick("{<<1, 3, 7>>, <<2, 1, 7>>, <<2, 2, 4>>, <<3, 1, 5>>}", "{<<1, 4, 7>>, <<2, 2, 7>>, <<3, 1, 7>>}")
     texts, fcases = export_cases(ctx, shapes, frames, 24, "design+cases")
     guard(texts, fcases, frames)
     calls = plan(rng, texts, fcases, frames, all_bs_texts=ctx.pick(60, 10 ** 9), ntext=ctx.pick(450, 0), nbs=4,
@@ -473,7 +487,7 @@ def selftest(ctx):
     ok = True
     rng = random.Random(3)
     frames = random_frames(rng, 14, True)
-    texts, fcases = export_cases(ctx, "{<<1, 3>>, <<2, 1>>}", frames, 16, "selftest-cases")
+    texts, fcases = export_cases(ctx, "{<<1, 3, 7>>, <<2, 1, 7>>}", frames, 16, "selftest-cases")
     guard(texts, fcases, frames)
     calls = plan(random.Random(4), texts, fcases, frames, all_bs_texts=25, ntext=60, nbs=3, nframe=150)
     found = []
